@@ -52,7 +52,14 @@ def miri_support(seed, exes):
     import time
     t0 = time.time()
     rng = core.Rng(seed ^ 0xC17)
-    lines = [l.strip() for l in open(os.path.join(core.ROOT, "corpus", "C17.txt")) if l.strip() and l.startswith("hist")]
+    def _grows_beyond_memory(l):
+        # histories with a growth the allocator must refuse need the harness' own allocator (Miri reports resource exhaustion)
+        for st in l[5:].split(" ; "):
+            tk = st.split()
+            if tk and tk[0] in ("setbit", "shl", "ishl") and int(tk[-1], 16) >= HUGE_BITS:
+                return True
+        return False
+    lines = [l.strip() for l in open(os.path.join(core.ROOT, "corpus", "C17.txt")) if l.strip() and l.startswith("hist") and not _grows_beyond_memory(l.strip())]
     for i in range(MIRI_GENERATED):
         lines.append("hist " + " ; ".join(gen_boundary(rng, i % 35)))
     lines += ["scr 19 19", "scr 32 19", "scr 1a 3"]
@@ -453,7 +460,7 @@ def sim(v, t):
         v[d] = v[d] + p if op == "addp" else (v[d] - p if op == "subp" else v[d] * p)
 
 
-HUGE_BITS = 1 << 44   # bit counts from here on ask for more than 2^40 bytes: the allocator refuses
+HUGE_BITS = 1 << 34   # bit counts from here on ask for more than 2^30 bytes: the harness' allocator refuses
 DIGITS = "0123456789abcdefghijklmnopqrstuvwxyz"
 
 
